@@ -292,33 +292,14 @@ PROPS["C15"] = {
           "same", bound="12 symbolic bytes", module=RM, timeout=1200),
         K("get_extension two-byte form (8 B)", "c15_get_extension_twobyte_8", "quick", "bounded", ["RtpHeader::get_extension"],
           "equals a reference walk written from RFC 8285 4.3", bound="8 symbolic bytes", module=RM, timeout=600),
-        K("set_extension then get_extension (4 B block)", "c15_set_get_extension_4", "thorough", "bounded", ["RtpHeader::set_extension", "RtpHeader::get_extension"],
-          "get(id) == Some(d), block 32-bit aligned",
-          bound="received block of 4 symbolic bytes (well-formed by assumption), 2-byte value", module=RM, timeout=3000),
-        K("SDES item length octet (2 B text)", "c15_sdes_item_length_2", "quick", "bounded", ["build_sdes_body"], "length octet, terminator, padding", bound="text 2 bytes (item list ends on a 32-bit boundary)", module=RM, timeout=600),
-        K("SDES item length octet (4 B text)", "c15_sdes_item_length_4", "quick", "bounded", ["build_sdes_body"], "same", bound="text 4 bytes", module=RM, timeout=600),
-        K("SDES item length octet (5 B text)", "c15_sdes_item_length_5", "quick", "bounded", ["build_sdes_body"], "same", bound="text 5 bytes", module=RM, timeout=600),
-        K("SDES two chunks framing (1 B text)", "c15_sdes_two_chunks_1", "quick", "bounded", ["build_sdes_body"],
-          "first chunk zero-terminated and padded, second chunk starts at the next 32-bit boundary", bound="2 chunks, first text 1 byte", module=RM, timeout=600),
-        K("SDES two chunks framing (2 B text)", "c15_sdes_two_chunks_2", "quick", "bounded", ["build_sdes_body"], "same", bound="first text 2 bytes", module=RM, timeout=600),
-        K("SDES two chunks framing (3 B text)", "c15_sdes_two_chunks_3", "quick", "bounded", ["build_sdes_body"], "same", bound="first text 3 bytes", module=RM, timeout=600),
-        K("SDES two chunks framing (4 B text)", "c15_sdes_two_chunks_4", "quick", "bounded", ["build_sdes_body"], "same", bound="first text 4 bytes", module=RM, timeout=600),
-        K("SDES item length octet (3 B text)", "c15_sdes_item_length_3", "quick", "bounded", ["build_sdes_body"],
-          "length octet == number of text bytes written; chunk zero-terminated and padded to 32 bits", bound="one chunk, one item, text 3 bytes", module=RM, timeout=600),
-        K("SDES item length octet (255 B text)", "c15_sdes_item_length_255", "quick", "bounded", ["build_sdes_body"], "same", bound="text 255 bytes", module=RM, timeout=600),
-        K("SDES item length octet (300 B text)", "c15_sdes_item_length_300", "quick", "bounded", ["build_sdes_body"],
-          "text longer than 255 bytes is truncated to what the length octet can carry (never emits bytes its own parser mis-frames)", bound="text 300 bytes", module=RM, timeout=600),
-        K("BYE reason length octet (300 B text)", "c15_bye_reason_length_300", "quick", "bounded", ["build_goodbye_body"], "same law for the BYE reason", bound="reason 300 bytes", module=RM, timeout=600),
         K("set_extension then get_extension (no previous extension)", "c15_set_get_extension_fresh", "quick", "bounded", ["RtpHeader::set_extension", "RtpHeader::get_extension", "RtpHeader::validate"],
           "one-byte-header block 0xBEDE created: (id<<4|len-1) || value, zero-padded to 32 bits; get(id) returns the value; header still valid",
           bound="header without extension, 3-byte value, every id 1..14", module=RM, timeout=900),
         K("set_extension rejects invalid id / length", "c15_set_extension_rejects_bad_args", "quick", "bounded", ["RtpHeader::set_extension"],
           "id 0 or >= 15, empty or > 16-byte value => Err, header untouched", bound="header without extension", module=RM, timeout=600),
-        K("set_extension keeps other ids (4 B block)", "c15_set_keeps_other_extension_4", "thorough", "bounded", ["RtpHeader::set_extension", "RtpHeader::get_extension"],
-          "every other extension id reads back unchanged after stamping one", bound="received block of 4 symbolic bytes (well-formed by assumption), 1-byte value", module=RM, timeout=3000),
-        K("RtpHeader::parse∘write_to (4-byte extension)", "c15_header_parse_of_write_ext4", "quick", "bounded", ["RtpHeader::parse", "RtpHeader::write_to"],
-          "parsing what write_to emitted recovers marker, payload type, sequence number, timestamp, ssrc, extension profile and data; cursor consumed exactly",
-          bound="no CSRC, extension data 4 bytes, parsed from &[u8]", module=RM),
+        K("set_extension next to / over existing elements (literal framing)", "c15_set_extension_existing_literal", "quick", "bounded", ["RtpHeader::set_extension", "RtpHeader::get_extension"],
+          "adding id 2 keeps ids 1 and 3 byte for byte and re-pads; replacing id 1 by a longer value keeps the others; get returns each value; unknown id is None",
+          bound="received block 10 v 30 w (framing octets literal, values symbolic), 2-byte value", module=RM, timeout=900),
         K("canary: report block inverse without clamping", "canary_report_block_unclamped", "quick", "canary", ["build_report_block"], "false claim, must FAIL", expect="fail", module=RM),
     ],
 }
